@@ -4,10 +4,15 @@
    `SLit KThis _` is `this`; `format_input` is the normalisation of Go numbers (Sem/Value.v).
    From Proofs/EvalFacts.v:
      all_dot p          p is a name or `this` followed only by plain `.k` selections
-     maps_only v        v contains no time.Time and no other Go struct (VTime, VOpaque) at any depth
-     state_maps_only st the data map of st is unset or satisfies maps_only *)
-From Coq Require Import List ZArith Bool.
-From Formula Require Import Sem.Eval Proofs.EvalFacts.
+     maps_only v        v contains no time.Time and no other Go struct (VTime, VStruct, VOpaque) at any depth
+     state_maps_only st the data map of st is unset or satisfies maps_only
+     not_normalised v   v is not a Go int, int32, int64 or float64 (format_input leaves it alone)
+   `VStruct id fs` is a Go struct value by the fields a selector can read (exported fields, promoted
+   fields of embedded structs included).
+   From Proofs/EvalExamples.v (used by the example only): idt "x" is the name x, dot a "k" is `a.k`,
+   bangdot a "k" is `a!.k`. *)
+From Coq Require Import List ZArith Bool String.
+From Formula Require Import Sem.Eval Proofs.EvalFacts Proofs.EvalExamples.
 Import ListNotations.
 Local Open Scope Z_scope.
 
@@ -84,12 +89,86 @@ Theorem dotted_chain_null_safe : forall hosts off p st,
 Proof. exact EvalFacts.dotted_chain_null_safe. Qed.
 
 (* the restriction to maps_only is needed: a member of a time.Time value panics in the evaluator
-   (reflect FieldByName finds no exported field); Resolve reports it as an error *)
+   (reflect FieldByName finds no exported field), and so does a name a Go struct does not have
+   (select_struct_missing below); Resolve reports it as an error *)
 Theorem member_on_time_panics : forall hosts off a k name asrt st t st1,
   eval hosts off a st = (Ok (VTime t), st1) ->
   eval hosts off (SSel a k name asrt) st = (Panic, st1) /\
   resolve_entry hosts off (SSel a k name asrt) st = (Err, st1).
 Proof. exact EvalFacts.member_on_time_panics. Qed.
+
+(* ---- Go struct values: `x.k` reads the field k ---- *)
+
+(* the whole behaviour of a selector on a struct (`.` and `!.` alike): a listed field is read - a nil
+   pointer in it reads as null, Go numbers are normalised - and any other name panics *)
+Theorem member_struct : forall hosts off a k name asrt st id fs st1,
+  eval hosts off a st = (Ok (VStruct id fs), st1) ->
+  eval hosts off (SSel a k name asrt) st =
+  match assoc name fs with
+  | Some x => (Ok (format_input (if is_null x then VNull else x)), st1)
+  | None => (Panic, st1)
+  end.
+Proof. exact EvalFacts.member_struct. Qed.
+
+Theorem select_struct_field : forall hosts off a k name asrt st id fs x st1,
+  eval hosts off a st = (Ok (VStruct id fs), st1) -> assoc name fs = Some x ->
+  eval hosts off (SSel a k name asrt) st = (Ok (format_input (if is_null x then VNull else x)), st1).
+Proof. exact EvalFacts.select_struct_field. Qed.
+
+(* for a field that is not a Go int, int32, int64 or float64 the result is the field itself *)
+Theorem select_struct_field_plain : forall hosts off a k name asrt st id fs x st1,
+  eval hosts off a st = (Ok (VStruct id fs), st1) -> assoc name fs = Some x -> not_normalised x = true ->
+  eval hosts off (SSel a k name asrt) st = (Ok (if is_null x then VNull else x), st1).
+Proof. exact EvalFacts.select_struct_field_plain. Qed.
+
+(* "typed nil pointers are null for member access": a field holding one reads as null *)
+Theorem select_struct_nil_field : forall hosts off a k name asrt st id fs st1,
+  eval hosts off a st = (Ok (VStruct id fs), st1) -> assoc name fs = Some VNilPtr ->
+  eval hosts off (SSel a k name asrt) st = (Ok VNull, st1).
+Proof. exact EvalFacts.select_struct_nil_field. Qed.
+
+(* a missing or unexported field: a panic in the evaluator (reflect's zero Value), which Resolve
+   reports as an error - unlike a missing key of a map, which is null *)
+Theorem select_struct_missing : forall hosts off a k name asrt st id fs st1,
+  eval hosts off a st = (Ok (VStruct id fs), st1) -> assoc name fs = None ->
+  eval hosts off (SSel a k name asrt) st = (Panic, st1) /\
+  resolve_entry hosts off (SSel a k name asrt) st = (Err, st1).
+Proof. exact EvalFacts.select_struct_missing. Qed.
+
+Theorem select_struct_panics_iff : forall hosts off a k name asrt st id fs st1,
+  eval hosts off a st = (Ok (VStruct id fs), st1) ->
+  (eval hosts off (SSel a k name asrt) st = (Panic, st1) <-> assoc name fs = None) /\
+  ((exists v, eval hosts off (SSel a k name asrt) st = (Ok v, st1)) <-> (exists x, assoc name fs = Some x)).
+Proof. exact EvalFacts.select_struct_panics_iff. Qed.
+
+(* rec = { user: User{Name: 'ann', Age: int 30, Address: Address{City: 'Oslo', Zip: int 150},
+                      Boss: a nil pointer to User, secret: ...} } with Address embedded (City and Zip are
+   promoted) and `secret` unexported (not listed) *)
+Theorem select_struct_example :
+  let addr := VStruct 2 [(str "City", VStr (str "Oslo")); (str "Zip", VGoInt GInt 150)] in
+  let user := VStruct 1 [(str "Name", VStr (str "ann")); (str "Age", VGoInt GInt 30); (str "Address", addr);
+                         (str "City", VStr (str "Oslo")); (str "Zip", VGoInt GInt 150); (str "Boss", VNilPtr)] in
+  let st := mkR (Some [(str "rec", VMap [(str "user", user)])]) [] in
+  let u := dot (idt "rec") "user" in
+  eval [] 0 u st = (Ok user, st) /\
+  eval [] 0 (dot u "Name") st = (Ok (VStr (str "ann")), st) /\
+  eval [] 0 (dot u "Age") st = (Ok (VNum (Fin false 30 0)), st) /\
+  eval [] 0 (dot u "City") st = (Ok (VStr (str "Oslo")), st) /\
+  eval [] 0 (dot (dot u "Address") "City") st = (Ok (VStr (str "Oslo")), st) /\
+  eval [] 0 (dot (dot u "Address") "Zip") st = (Ok (VNum (Fin false 150 0)), st) /\
+  eval [] 0 (dot u "Boss") st = (Ok VNull, st) /\
+  eval [] 0 (dot (dot u "Boss") "Name") st = (Ok VNull, st) /\
+  eval [] 0 (bangdot u "Name") st = (Ok (VStr (str "ann")), st) /\
+  eval [] 0 (bangdot (dot u "Boss") "Name") st = (Err, st) /\
+  eval [] 0 (dot u "secret") st = (Panic, st) /\
+  resolve_entry [] 0 (dot u "secret") st = (Err, st) /\
+  eval [] 0 (dot u "name") st = (Panic, st) /\
+  eval [] 0 (dot (dot u "Address") "Street") st = (Panic, st) /\
+  resolve_entry [] 0 (dot (dot u "Address") "Street") st = (Err, st) /\
+  eval [] 0 (STypeof u) st = (Ok (VStr (str "object")), st) /\
+  eval [] 0 (SBin u KEqEq u) st = (Unk, st) /\
+  state_maps_only st = false.
+Proof. exact EvalExamples.ex_struct_member. Qed.
 
 (* "Go int, int32, int64 and float64 values become numbers" *)
 Theorem normalise_numbers :
@@ -137,6 +216,13 @@ Print Assumptions member_on_null_is_null.
 Print Assumptions assert_errors_iff_null.
 Print Assumptions dotted_chain_null_safe.
 Print Assumptions member_on_time_panics.
+Print Assumptions member_struct.
+Print Assumptions select_struct_field.
+Print Assumptions select_struct_field_plain.
+Print Assumptions select_struct_nil_field.
+Print Assumptions select_struct_missing.
+Print Assumptions select_struct_panics_iff.
+Print Assumptions select_struct_example.
 Print Assumptions normalise_numbers.
 Print Assumptions others_unchanged.
 Print Assumptions others_unchanged_all.
